@@ -321,6 +321,31 @@ func (e *Enc) applySpec(fr *Frame, st *State, spec *FuncSpec, ci calleeInfo, arg
 		mods = mods[:0]
 		e.havocAll(st, fr)
 	}
+	if spec.ModifiesAll {
+		// heaps the contract promises to keep on pre-existing objects (top-level kept("...") conjuncts of its exported
+		// postconditions): instead of a quantified "forall o <= alloc: H'[o] == H[o]" the pre-call heap term itself is
+		// kept - objects allocated by the callee then hold whatever that term holds at ids that were unallocated
+		// before the call, i.e. unconstrained values, which over-approximates anything the callee may have put there
+		for _, en := range spec.Ensures {
+			if !e.active(en.Props) || en.Local {
+				continue
+			}
+			for _, hn := range keptHeapNames(en.Expr) {
+				hs, err := e.P.expandHeaps([]string{hn})
+				if err != nil {
+					continue
+				}
+				for _, h := range hs {
+					if sort, ok := e.hsorts[h]; ok {
+						e.setHeap(st, h, e.heap(pre, h, sort))
+					} else if srt := e.P.heapSortByName(h); srt != nil {
+						e.hsorts[h] = srt
+						e.setHeap(st, h, e.heap(pre, h, srt))
+					}
+				}
+			}
+		}
+	}
 	for _, h := range mods {
 		e.ensureHeapKnown(h)
 		e.havocHeap(st, h)
@@ -505,6 +530,26 @@ func (e *Enc) havocU256Call(fr *Frame, st *State, ci calleeInfo, args []*Val, ar
 		out = append(out, &Val{T: t})
 	}
 	return packResults(out)
+}
+
+// keptHeapNames: the heap names of the top-level kept("...") conjuncts of a postcondition.
+func keptHeapNames(x *SExpr) []string {
+	if x == nil {
+		return nil
+	}
+	if x.Kind == "binop" && x.Op == "&&" {
+		return append(keptHeapNames(x.Args[0]), keptHeapNames(x.Args[1])...)
+	}
+	if x.Kind == "call" && x.Name == "kept" {
+		var out []string
+		for _, a := range x.Args {
+			if a.Kind == "str" {
+				out = append(out, a.Name)
+			}
+		}
+		return out
+	}
+	return nil
 }
 
 func (e *Enc) ensureHeapKnown(h string) {
